@@ -12,6 +12,8 @@ mod enumerate;
 mod gen;
 mod json;
 mod link_clean;
+mod link_hostile;
+mod refcodec;
 mod runner;
 mod scenario;
 mod sim;
@@ -84,6 +86,7 @@ struct Agg {
     determinism_checked: u64,
     determinism_mismatch: u64,
     draws: u64,
+    seen_sigs: BTreeSet<(String, String)>,
 }
 
 fn out_line(s: &str) {
@@ -138,11 +141,12 @@ fn process(
     }
     if let Some(v) = &out.violation {
         agg.violations += 1;
-        if agg.replays_written >= max_violations {
+        // one replay per distinct (clause, signature) and worker, up to the limit
+        if agg.replays_written >= max_violations || !agg.seen_sigs.insert((v.clause.to_string(), v.signature.clone())) {
             return;
         }
         let original_len = out.tape.len();
-        let (small, tried) = runner::shrink(prop, tier, out.tape.clone(), v.clause, 3000, 20.0);
+        let (small, tried) = runner::shrink(prop, tier, out.tape.clone(), v.clause, &v.signature, 3000, 20.0);
         let (tape_final, jv) = match runner::replay_file_json(prop, tier, &small, base_seed, run_index, original_len, tried, repo_rev) {
             Some((j, v2)) if v2.clause == v.clause => (small, Some((j, v2))),
             _ => {
@@ -236,7 +240,7 @@ fn cmd_worker(a: &Args) -> i32 {
     let out_dir = a.map.get("out-dir").cloned().unwrap_or_else(|| "/verif/replays".to_string());
     let repo_rev = a.map.get("repo-rev").cloned().unwrap_or_default();
     let hash_file = a.map.get("hash-file").cloned();
-    let max_violations: u64 = a.map.get("max-violations").and_then(|s| s.parse().ok()).unwrap_or(2);
+    let max_violations: u64 = a.map.get("max-violations").and_then(|s| s.parse().ok()).unwrap_or(6);
     let recheck_every: u64 = a.map.get("recheck-every").and_then(|s| s.parse().ok()).unwrap_or(100);
     let sample_every: u64 = ((rb - ra) / 3).max(1);
 
@@ -256,6 +260,7 @@ fn cmd_worker(a: &Args) -> i32 {
         determinism_checked: 0,
         determinism_mismatch: 0,
         draws: 0,
+        seen_sigs: BTreeSet::new(),
     };
 
     for run in ra..rb {
